@@ -219,6 +219,50 @@ class TMutRec(T):
         return d
 
 
+class TDRec(T):
+    """dict-shaped record: a python dict with a fixed set of *possible* string keys, z3-encodable (so it can be a
+    value of a Dict / an element of a List).  `required` keys are always present, `optional` keys carry a presence
+    bit.  Reading it uses the dict protocol (`d.get(k, dflt)`, `d[k]`, `k in d`, isinstance(d, dict));
+    a dict literal whose keys fit is coerced to it when stored into a typed container."""
+
+    def __init__(self, nm, required, optional):
+        self.nm = nm
+        self.required = dict(required)
+        self.optional = dict(optional)
+        self.fields = dict(self.required)
+        self.fields.update(self.optional)
+        self.name = "DRec_" + nm
+        key = self.name
+        if key not in _DT_CACHE:
+            d = z3.Datatype("DRec_" + _safe(nm))
+            fs = [("v_" + fn, ft.sort()) for fn, ft in self.fields.items()]
+            fs += [("has_" + fn, z3.BoolSort()) for fn in self.optional]
+            d.declare("mk", *fs)
+            _DT_CACHE[key] = d.create()
+        self.dt = _DT_CACHE[key]
+
+    def sort(self):
+        return self.dt
+
+    def wrap(self, e):
+        return VDRec(e, self)
+
+    def val(self, fname, e):
+        return getattr(self.dt, "v_" + fname)(e)
+
+    def has(self, fname, e):
+        if fname in self.required:
+            return z3.BoolVal(True)
+        if fname in self.optional:
+            return getattr(self.dt, "has_" + fname)(e)
+        return z3.BoolVal(False)
+
+    def mk(self, vals, present):
+        """vals: {field: z3 expr (for every field)}, present: {optional field: z3 Bool}"""
+        args = [vals[fn] for fn in self.fields] + [present[fn] for fn in self.optional]
+        return self.dt.mk(*args)
+
+
 class TList(T):
     def __init__(self, elem, kind="list"):
         self.elem = elem
@@ -404,6 +448,20 @@ class VRec(V):
         self.t = t
 
 
+class VDRec(V):
+    """value of a dict-shaped record type (immutable value semantics, like VRec)"""
+
+    def __init__(self, e, t):
+        self.e = e
+        self.t = t
+
+    def field(self, fname):
+        return self.t.fields[fname].wrap(self.t.val(fname, self.e))
+
+    def has(self, fname):
+        return self.t.has(fname, self.e)
+
+
 class VSeq(V):
     def __init__(self, arr, n, et, kind="list"):
         self.arr, self.n, self.et, self.kind = arr, n, et, kind
@@ -541,6 +599,13 @@ class VOpaque(V):
         self.tag = tag
 
 
+class VNaN(V):
+    """float('nan'): floats are mathematical reals in this engine (A-REAL); this is the single non-finite float value it
+    can represent, and only as a python-side constant (spec constructor `nan()`): every ordering comparison and ==
+    with it is False, math.isfinite is False, float()/abs() keep it.  Arithmetic on it is not modelled."""
+    t = None
+
+
 class VUndef(V):
     """spec mode only: the value of a partial operation outside its domain (e.g. None[0]).
     Any predicate over it is an unconstrained boolean, so a clause that depends on it cannot be proved."""
@@ -550,7 +615,7 @@ class VUndef(V):
 def typeof(v):
     if isinstance(v, (VInt, VReal, VBool, VStr, VNone)):
         return v.t
-    if isinstance(v, (VUn, VOpt, VRec, VTuple, VSeq, VMap, VSet, VPath)):
+    if isinstance(v, (VUn, VOpt, VRec, VTuple, VSeq, VMap, VSet, VPath, VDRec)):
         return v.t
     if isinstance(v, VDictRec) and v.mt is not None:
         return v.mt
@@ -611,7 +676,24 @@ def unwrap(v, t):
     if isinstance(t, TTuple) and isinstance(v, VTuple):
         if len(v.items) != len(t.elems):
             raise TypeError("tuple arity")
-        return t.dt.mk(*[unwrap(x, et) for x, et in zip(v.items, t.elems)])
+        parts = [unwrap(x, et) for x, et in zip(v.items, t.elems)]
+        # eta: mk(f0(e), f1(e), ...) is e itself (keeps a quantified tuple variable visible to the triggers)
+        try:
+            base = None
+            for i, p in enumerate(parts):
+                if not (z3.is_app(p) and p.num_args() == 1 and p.decl().eq(getattr(t.dt, "f%d" % i))):
+                    base = None
+                    break
+                if base is None:
+                    base = p.arg(0)
+                elif not base.eq(p.arg(0)):
+                    base = None
+                    break
+            if base is not None and parts and base.sort().eq(t.dt):
+                return base
+        except z3.Z3Exception:
+            pass
+        return t.dt.mk(*parts)
     if isinstance(t, TRec) and isinstance(v, VRec):
         if v.t.nm != t.nm:
             raise TypeError("record mismatch %s vs %s" % (v.t, t))
@@ -637,6 +719,12 @@ def unwrap(v, t):
     if isinstance(t, TMap) and isinstance(v, VDictRec) and not v.fields and not t.ordered:
         dflt = z3.Const("dflt_" + "".join(c if c.isalnum() else "_" for c in t.v.name), t.v.sort())
         return t.dt.mk(z3.K(t.k.sort(), z3.BoolVal(False)), z3.K(t.k.sort(), dflt), z3.IntVal(0))
+    if isinstance(t, TDRec):
+        if isinstance(v, VDRec) and v.t == t:
+            return v.e
+        if isinstance(v, VDictRec):
+            return drec_of_literal(v, t)
+        raise TypeError("cannot encode %s as %s" % (type(v).__name__, t))
     if isinstance(t, TList) and type(v).__name__ == "VEmptyList":
         dflt = z3.Const("dflt_" + "".join(c if c.isalnum() else "_" for c in t.elem.name), t.elem.sort())
         return t.dt.mk(z3.K(z3.IntSort(), dflt), z3.IntVal(0))
@@ -680,6 +768,43 @@ def _eta2(dt, es):
     if x is not None and x.sort().eq(dt):
         return x
     return dt.mk(*es)
+def drec_shape_ok(v, t):
+    """does the dict literal have exactly the required keys plus some of the optional ones?"""
+    keys = set(v.fields)
+    return set(t.required) <= keys and keys <= set(t.fields)
+
+
+def _empty_of(ft):
+    """z3 value used for `{}` / `[]` literals and for absent optional fields"""
+    if isinstance(ft, TMap):
+        dflt = z3.Const("dflt_" + _safe(ft.v.name), ft.v.sort())
+        args = [z3.K(ft.k.sort(), z3.BoolVal(False)), z3.K(ft.k.sort(), dflt), z3.IntVal(0)]
+        if ft.ordered:
+            args.append(z3.K(z3.IntSort(), z3.Const("dflt_" + _safe(ft.k.name), ft.k.sort())))
+        return ft.dt.mk(*args)
+    if isinstance(ft, TList):
+        return ft.dt.mk(z3.K(z3.IntSort(), z3.Const("dflt_" + _safe(ft.elem.name), ft.elem.sort())), z3.IntVal(0))
+    return z3.Const("dflt_" + _safe(ft.name), ft.sort())
+
+
+def drec_of_literal(v, t):
+    if not drec_shape_ok(v, t):
+        raise TypeError("dict literal with keys %s does not fit %s" % (sorted(v.fields), t.nm))
+    vals, present = {}, {}
+    for fn, ft in t.fields.items():
+        if fn in v.fields:
+            x = v.fields[fn]
+            if isinstance(x, VDictRec) and not x.fields and isinstance(ft, TMap):
+                vals[fn] = _empty_of(ft)
+            elif type(x).__name__ == "VEmptyList" and isinstance(ft, TList):
+                vals[fn] = _empty_of(ft)
+            else:
+                vals[fn] = unwrap(x, ft)
+        else:
+            vals[fn] = _empty_of(ft)
+        if fn in t.optional:
+            present[fn] = z3.BoolVal(fn in v.fields)
+    return t.mk(vals, present)
 
 
 # ---------------------------------------------------------------- type parsing
